@@ -498,6 +498,77 @@ func main() {
 	}
 	fmt.Fprintf(&sb, "(* deferError.Error() waits on errCh or on its ShutdownCh *)\nDefinition error_selects_shutdown : bool := %s.\n\n", b(errSel))
 
+	// runLeader's notifications: on entry (function body) and on exit (the deferred function)
+	type note struct {
+		ch  string
+		val string
+	}
+	collect := func(n ast.Node, skip ast.Node) []note {
+		var out []note
+		add := func(x note) {
+			if len(out) > 0 && out[len(out)-1] == x {
+				return // the best-effort repeat of the same send under <-shutdownCh
+			}
+			out = append(out, x)
+		}
+		ast.Inspect(n, func(m ast.Node) bool {
+			if m == skip {
+				return false
+			}
+			switch x := m.(type) {
+			case *ast.CallExpr:
+				if id, ok := x.Fun.(*ast.Ident); ok && id.Name == "overrideNotifyBool" && len(x.Args) == 2 {
+					add(note{chanName(x.Args[0]), exprString(x.Args[1])})
+				}
+			case *ast.SendStmt:
+				if id, ok := x.Chan.(*ast.Ident); ok && id.Name == "notify" {
+					add(note{"notify", exprString(x.Value)})
+				}
+			}
+			return true
+		})
+		return out
+	}
+	var entryNotes, exitNotes []note
+	if fd := fm["Raft.runLeader"]; fd != nil {
+		var deferred ast.Node
+		for _, st := range fd.Body.List {
+			if d, ok := st.(*ast.DeferStmt); ok {
+				if fl, ok := d.Call.Fun.(*ast.FuncLit); ok && deferred == nil {
+					// the step-down defer is the one that contains notifications
+					if len(collect(fl, nil)) > 0 {
+						deferred = d
+						exitNotes = collect(fl, nil)
+					}
+				}
+			}
+		}
+		entryNotes = collect(fd.Body, deferred)
+	}
+	fmtNotes := func(ns []note) string {
+		var xs []string
+		for _, n := range ns {
+			xs = append(xs, fmt.Sprintf("(\"%s\", %s)", n.ch, n.val))
+		}
+		return "[" + strings.Join(xs, "; ") + "]"
+	}
+	sb.WriteString("(* runLeader: notifications sent on entry and, by the deferred step-down code, on exit: (channel, value) in program order *)\n")
+	fmt.Fprintf(&sb, "Definition runleader_entry : list (string * bool) := %s.\nDefinition runleader_exit : list (string * bool) := %s.\n\n", fmtNotes(entryNotes), fmtNotes(exitNotes))
+
+	// setState clears the advertised leader
+	clears := false
+	if fd := fm["Raft.setState"]; fd != nil {
+		ast.Inspect(fd.Body, func(n ast.Node) bool {
+			if c, ok := n.(*ast.CallExpr); ok && strings.HasSuffix(exprString(c.Fun), ".setLeader") && len(c.Args) == 2 {
+				if exprString(c.Args[0]) == "\"\"" && exprString(c.Args[1]) == "\"\"" {
+					clears = true
+				}
+			}
+			return true
+		})
+	}
+	fmt.Fprintf(&sb, "(* setState calls setLeader(\"\", \"\") *)\nDefinition setstate_clears_leader : bool := %s.\n\n", b(clears))
+
 	// is stoppedCh closed only after waitShutdown() (every goroutine has exited)?
 	stoppedAfterWait := false
 	if fd := fm["Raft.Shutdown"]; fd != nil {
